@@ -1451,6 +1451,14 @@ func c9Judge(r *h.Result, gens []*c9Gen) error {
 		bpOps = append(bpOps, "c09bp "+tags+" 0")
 		bpImpl = append(bpImpl, fmt.Sprintf("%d|%d|%s", o.Bp, ch, internal))
 		bpCases = append(bpCases, map[string]any{"query": gens[gi].Case.Query})
+		if o.Plan != "" && o.Internal > 0 {
+			// the stages left in the script after Plan: their tags as the model sees them (Read.StageK.tag) are the
+			// tail of the tags GetBreakpoint saw, and splitting them again cuts at 0 (Read.splitPipeline)
+			all := strings.Split(o.Tags, ",")
+			bpOps = append(bpOps, "c09tags "+strings.SplitN(o.Plan, " ", 2)[0])
+			bpImpl = append(bpImpl, fmt.Sprintf("%s|0|%d", strings.Join(all[len(all)-o.Internal:], ","), o.Internal))
+			bpCases = append(bpCases, map[string]any{"query": gens[gi].Case.Query, "plan": o.Plan})
+		}
 	}
 	if err := r.Compare("split", bpOps, bpImpl, bpCases); err != nil {
 		return err
